@@ -46,6 +46,14 @@ Definition bad_sinks (l : list sink) : list sink := filter (fun s => negb (sink_
 (* the sinks a secret-carrying identifier reaches at all (guarded or not) *)
 Definition reaches_secret (s : sink) : bool := existsb (fun f => str_in (fst f) secret_idents) (s_flows s).
 Definition secret_sinks (l : list sink) : list sink := filter reaches_secret l.
+(* known finding C12-response-hidden-input: Response.channel_input of a send_interactive is the join of ALL event
+   inputs, hidden ones included (GenericDriver._pre_send_interactive); the two sinks of the unchanged tree that show
+   that attribute are the finding's region: repr(Response) and the `no template` warning of textfsm_parse_output *)
+Definition known_region (s : sink) : bool :=
+  (String.eqb (s_file s) "scrapli/response.py" && String.eqb (s_func s) "Response.__repr__") ||
+  (String.eqb (s_file s) "scrapli/helper.py" && String.eqb (s_func s) "_textfsm_get_template").
+Definition outside (region : sink -> bool) (l : list sink) : list sink := filter (fun s => negb (region s)) l.
+Definition func_in (f : string) (l : list sink) : bool := existsb (fun s => String.eqb (s_func s) f) l.
 Definition count_kind (k : skind) (l : list sink) : nat :=
   length (filter (fun s => match s_kind s, k with SLog, SLog | SRaise, SRaise | SRepr, SRepr => true | _, _ => false end) l).
 
@@ -226,6 +234,17 @@ Record conf := mkConf { c_host : msg; c_user : msg; c_key : msg; c_rest : msg; c
 Definition m_repr (c : conf) : list obs := [ORepr (c_host c ++ c_user c ++ c_key c ++ c_rest c)].
 Definition m_str (c : conf) : list obs := [ORepr (c_host c)].
 
+(* scrapli/response.py — the Response / MultiResponse object handed to the user.  [r_input] is channel_input: the
+   command, or for send_interactive the join of ALL event inputs, hidden ones included (a MultiResponse: all of its
+   elements' inputs).  __repr__ prints host, channel_input and failed_when_contains; __str__ the class name and the
+   success flag (literal text); raise_for_status raises ScrapliCommandFailure with an empty message when failed. *)
+Record resp := mkResp { r_host : msg; r_input : msg; r_fwc : msg; r_failed : bool }.
+Definition E_CMDFAIL : N := 4.  (* ScrapliCommandFailure *)
+Definition m_resp_repr (r : resp) : list obs := [ORepr (r_host r ++ r_input r ++ r_fwc r)].
+Definition m_resp_str (r : resp) : list obs := [ORepr []].
+Definition m_resp_raise (r : resp) : list obs * stop :=
+  if r_failed r then ([OExc E_CMDFAIL []], SRaised) else ([], SOk).
+
 Inductive op :=
 | OpLoginTelnet (user pw : msg)
 | OpLoginSsh (handler : bool) (pw ph : msg)
@@ -234,7 +253,10 @@ Inductive op :=
 | OpInteract (complete : bool) (evs : list ievent)
 | OpEscalate (esc_cmd esc_prompt sec2 pat prev name : msg) (sec2_ne : bool)
 | OpRepr (c : conf)
-| OpStr (c : conf).
+| OpStr (c : conf)
+| OpRespRepr (r : resp)
+| OpRespStr (r : resp)
+| OpRespRaise (r : resp).
 
 Definition run_op (fixd : bool) (o : op) (h : list rev) : list obs * stop * list rev :=
   match o with
@@ -246,6 +268,9 @@ Definition run_op (fixd : bool) (o : op) (h : list rev) : list obs * stop * list
   | OpEscalate a b s2 c d e ne => m_escalate fixd a b s2 c d e ne h
   | OpRepr c => (m_repr c, SOk, h)
   | OpStr c => (m_str c, SOk, h)
+  | OpRespRepr r => (m_resp_repr r, SOk, h)
+  | OpRespStr r => (m_resp_str r, SOk, h)
+  | OpRespRaise r => let '(t, s) := m_resp_raise r in (t, s, h)
   end.
 
 (* a session: operations in order over one history; the first failure ends it *)
@@ -273,6 +298,11 @@ Definition op_wf (o : op) : bool :=
   | OpInteract _ evs => forallb ev_wf evs
   | OpEscalate a b _ c d e _ => pub a && pub b && pub c && pub d && pub e
   | OpRepr c | OpStr c => conf_pub c
+  (* repr of a response: its channel_input holds no secret, i.e. it is not the response of an interaction with a hidden
+     input (that region is the known finding C12-response-repr-hidden-input, see [resp_repr_refuted]);
+     str() and raise_for_status(): no condition at all *)
+  | OpRespRepr r => pub (r_host r) && pub (r_input r) && pub (r_fwc r)
+  | OpRespStr _ | OpRespRaise _ => true
   end.
 (* the first input of an interaction is typed at the command prompt: it is not the hidden one *)
 Definition op_wf_first (o : op) : bool :=
